@@ -338,6 +338,41 @@ theorem crash_leaves_complete_file (s0 : PState) (h0 : Init s0) (steps : List St
     · exact Or.inr ⟨x, hx, h⟩
 
 
+
+/-- **A directory load only adds**: whatever the directory holds (the main file,
+staging files, downloaded remote lists are all parsed the same way), merging it
+never unlists an entry and never touches the whitelist. -/
+theorem dirload_only_adds (s : PState) :
+    (∀ e ∈ s.mem.m, e ∈ (step s .dirLoad).mem.m) ∧ (∀ e ∈ s.mem.wild, e ∈ (step s .dirLoad).mem.wild) ∧
+    (step s .dirLoad).mem.w = s.mem.w :=
+  dirLoadMem_mono s.mem s.main _
+
+/-
+Statement WITHOUT the failure hypothesis (FALSE on a fresh install, witness `fresh_install_gap`):
+
+  ∀ steps in which every file-system call is told to succeed (all `ok = true`),
+    pending = [] → inflight = none → version > 0 → main = render ⟨version, mem⟩
+
+`New` does not create `BlockListDir`; `refreshRemote` does, one second after
+start-up (`mkdir`).  Until then `os.CreateTemp` fails by itself, the completed API
+call returns success, and nothing is on disk.  `persist_converges` is the
+statement that holds: the failed `persist` is recorded in `failed`.
+-/
+
+/-- **Fresh-install window** (counter-witness and repair): with the directory
+still missing, a completed `Set` — every call "succeeds" as far as the
+environment is concerned — leaves memory holding the entry and no file at all;
+after `mkdir` the next mutation's `persist` writes everything. -/
+theorem fresh_install_gap :
+    let s0 : PState := { dirMissing := true }
+    let s1 := run s0 [.mutate (.set "a.com.".toList), .begin 0 true]
+    (s1.pending = [] ∧ s1.inflight = none ∧ s1.version = 1 ∧ s1.mem.m = ["a.com.".toList] ∧ s1.main = none ∧
+      s1.failed = [1]) ∧
+    let s2 := run s1 ([.mkdir, .mutate (.set "b.com.".toList), .begin 0 true] ++ List.replicate 3 (.write true) ++
+      [.sync true, .close true, .rename true, .commit])
+    s2.main = some [headerLine, "a.com.".toList, "b.com.".toList] ∧ s2.pending = [] ∧ s2.inflight = none := by
+  decide
+
 /-- **Kill, restart, repeat: the main file is always a complete list.**  Over a
 whole life — any interleaving, killed at any point, restarted by `New` over what
 is on disk (stranded staging files included), any further interleaving, killed
@@ -432,6 +467,7 @@ theorem main_changes_only_by_complete_rename (m0 : Option (List Str)) (s : PStat
     · split <;> rfl
     · rfl
   | dirLoad => left; rfl
+  | mkdir => left; rfl
   | rename ok =>
     unfold step; simp only
     cases hin : s.inflight with
